@@ -22,16 +22,19 @@ import (
 
 // A scenario is everything random about one round, derived from (seed, round) alone.
 type scenario struct {
-	Seed     int64      `json:"seed"`
-	Round    int        `json:"round"`
-	Users    int        `json:"users"`
-	Clients  []clientSc `json:"clients"`
-	Updates  []string   `json:"updates"`   // per update: kind
-	Shutdown []shutStep `json:"shutdown"`  // application calls, each fired when the global step counter reaches At
-	LateDial bool       `json:"late_dial"` // a client keeps dialing while the server shuts down
-	BigBox   bool       `json:"big_box"`   // a mailbox with large messages exists (slow-reader ending)
-	CtxCancel bool      `json:"ctx_cancel"` // the clients are served through a second listener whose Serve context the application cancels
-	Flood    int        `json:"flood"`     // further flag updates per user submitted in a row (while slow readers keep a session blocked)
+	Seed      int64      `json:"seed"`
+	Round     int        `json:"round"`
+	Users     int        `json:"users"`
+	Clients   []clientSc `json:"clients"`
+	Updates   []string   `json:"updates"`    // per update: kind
+	Shutdown  []shutStep `json:"shutdown"`   // application calls, each fired when the global step counter reaches At
+	LateDial  bool       `json:"late_dial"`  // a client keeps dialing while the server shuts down
+	BigBox    bool       `json:"big_box"`    // a mailbox with large messages exists (slow-reader ending)
+	CtxCancel bool       `json:"ctx_cancel"` // the clients are served through a second listener whose Serve context the application cancels
+	Flood     int        `json:"flood"`      // further flag updates per user submitted in a row (while slow readers keep a session blocked)
+	WaitFlood bool       `json:"wait_flood"` // the application's calls start only after the flood (directed rounds)
+	Stream    bool       `json:"stream"`     // the connector keeps handing updates to gluon without waiting for their acknowledgement until the application's calls have returned
+	Directed  string     `json:"directed"`   // name of the directed scenario ("" = random round)
 }
 
 type clientSc struct {
@@ -51,7 +54,35 @@ var stepKinds = []string{"noop", "capability", "select", "examine", "store", "fe
 
 var endings = []string{"logout", "drop", "drop-inflight", "drop-mid-literal", "drop-in-idle", "drop-before-login", "slow-reader", "stay", "stay-idle"}
 
+// Directed rounds: the concrete counterparts of the design-level witnesses TLC finds in the as-code / bug configurations of
+// GluonLocks (a round number >= 9100 selects one).
+//
+//	9100 queue   a session that is blocked writing to a client that does not read gets more than 32 updates queued and is
+//	             then dropped; RemoveUser, Close (GluonLocks.ascode.queue: the pump goroutine must not be left behind)
+//	9101 stream  RemoveUser and Close while the connector keeps delivering updates (the forwarder must not block for ever
+//	             on an update nobody will take: RemoveUserReturns / CloseReturns)
+var directedRounds = []int{9100, 9101}
+
+func directed(seed int64, round int) *scenario {
+	switch round {
+	case 9100:
+		return &scenario{Seed: seed, Round: round, Users: 1, Directed: "queue", BigBox: true, Flood: 45, WaitFlood: true,
+			Clients:  []clientSc{{User: 0, Steps: []string{"noop"}, End: "slow-reader"}, {User: 0, Steps: []string{"select", "noop"}, End: "stay"}},
+			Updates:  []string{"flags"},
+			Shutdown: []shutStep{{Call: "remove:0", At: 0}, {Call: "close", At: 0}}}
+	case 9101:
+		return &scenario{Seed: seed, Round: round, Users: 1, Directed: "stream", Stream: true,
+			Clients:  []clientSc{{User: 0, Steps: []string{"select", "noop"}, End: "stay"}},
+			Updates:  []string{"flags", "noop"},
+			Shutdown: []shutStep{{Call: "remove:0", At: 3}, {Call: "close", At: 3}}}
+	}
+	return nil
+}
+
 func makeScenario(seed int64, round int, tier string) *scenario {
+	if d := directed(seed, round); d != nil {
+		return d
+	}
 	rnd := rand.New(rand.NewSource(seed*1000003 + int64(round)*7919))
 	sc := &scenario{Seed: seed, Round: round, Users: 1 + rnd.Intn(2)}
 	n := 3 + rnd.Intn(6) // 3..8 sessions
@@ -124,6 +155,12 @@ func (sc *scenario) describe() string {
 	}
 	if sc.CtxCancel {
 		b.WriteString("\n  the clients connect to a listener served with Server.Serve(ctx, l); `cancel` cancels that ctx")
+	}
+	if sc.Directed != "" {
+		fmt.Fprintf(&b, "\n  directed scenario %q", sc.Directed)
+	}
+	if sc.Stream {
+		b.WriteString("\n  the connector keeps handing updates to gluon (not waiting for acknowledgements) until RemoveUser / Close have returned")
 	}
 	if sc.Flood > 0 {
 		fmt.Fprintf(&b, "\n  after its updates the connector submits %d more flag updates per user in a row; slow readers leave after that", sc.Flood)
@@ -226,8 +263,8 @@ type roundEnv struct {
 	out       *roundOut
 	mu        sync.Mutex
 	progress  int64
-	shutting  int32            // an application call that tears sessions down has begun
-	userDown  []int32          // per user: RemoveUser / Close began
+	shutting  int32              // an application call that tears sessions down has begun
+	userDown  []int32            // per user: RemoveUser / Close began
 	msgIDs    [][]imap.MessageID // per user: remote ids of the messages in box1
 	internal  [][]imap.InternalMessageID
 	boxIDs    [][]imap.MailboxID
@@ -688,6 +725,10 @@ func (e *roundEnv) application(done chan struct{}) {
 			e.find(key, fmt.Sprintf("%s did not return within %v\n%s\n\ngoroutines:\n%s", call, closeWatchdog, e.sc.describe(), allStacks()))
 		}
 	}
+	if e.sc.WaitFlood {
+		<-e.floodDone
+		time.Sleep(300 * time.Millisecond) // provocation only: let the slow reader's connection go away first
+	}
 	for _, s := range e.sc.Shutdown {
 		for atomic.LoadInt64(&e.progress) < int64(s.At) && !e.clientsDone() {
 			time.Sleep(time.Millisecond)
@@ -792,6 +833,28 @@ func runRound(sc *scenario, rec *recorder) (*roundOut, error) {
 		go e.lateDialer(&owg)
 	}
 	appDone := make(chan struct{})
+	if sc.Stream {
+		// the remote keeps producing: one update after the other is handed to gluon's update channel, nobody waits for Done
+		owg.Add(1)
+		go func() {
+			defer owg.Done()
+			ids := e.msgIDs[0]
+			for k := 0; ; k++ {
+				fl := imap.NewFlagSet()
+				if k%2 == 0 {
+					fl = imap.NewFlagSet(imap.FlagFlagged)
+				}
+				var up imap.Update = imap.NewMessageFlagsUpdated(ids[k%len(ids)], fl)
+				if k%3 == 2 {
+					up = imap.NewNoop()
+				}
+				if !e.srv.Users[0].Conn.Push(up, appDone) {
+					return
+				}
+				atomic.AddInt64(&e.out.Flooded, 1)
+			}
+		}()
+	}
 	go e.application(appDone)
 	<-appDone
 	if l2 != nil {
